@@ -172,6 +172,7 @@ class Scenario:
             return (b'\n#%d\n' % len(x) + x + b'\n##\n') if base11 else x + b']]>]]>'
         ses.add_listener(NotificationHandler(ses._notification_q))
         self.ses, self.sock = ses, sock
+        self.qualify = bool(dh.perform_qualify_check())
         real_run = ses.run
         def wrun():
             try:
@@ -335,6 +336,8 @@ class Scenario:
                     labels.append([6, 0, idn(m.group(1))] if m else [6, 1, 0])
                 elif raw.startswith('<notification'):
                     labels.append([6, 2, notif_idx(raw)])
+                elif not self._parses(raw):
+                    labels.append([6, 5, 0])
                 else:
                     labels.append([6, 3, idn(m.group(1))] if m else [6, 4, 0])
             elif k == 'nq.put':
@@ -370,12 +373,19 @@ class Scenario:
                 code = self.err_code(e[2])
                 prev = next((l for l in reversed(labels) if l[0] in (5, 6, 7, 8, 9, 10, 11, 12, 20)), None)
                 explained = prev is not None and (prev[0] in (11, 12, 20) or (prev[0] == 8 and prev[2] == 0) or
-                                                  (prev[0] == 6 and prev[1] in (1, 4)))
+                                                  (prev[0] == 6 and (prev[1] == 1 or (prev[1] == 4 and not self.qualify))))
                 if not explained and not client_closed:
                     labels.append([21, code])         # the exception came out of parser.parse (framing / decoding)
                 labels.append([19, code])
         self.rid_of_rpc, self.reg = rid_of_rpc, reg
         return labels
+    @staticmethod
+    def _parses(raw):
+        from ncclient.xml_ import parse_root
+        try:
+            parse_root(raw); return True
+        except Exception:
+            return False
     @staticmethod
     def err_code(err):
         from ncclient.transport.errors import SessionCloseError, TransportError
